@@ -154,7 +154,11 @@ def run(facts, rep, tier):
             continue
         n1 += 1
         ch = set(changed_fields(r.pre, r.post_update))
-        extra = ch - allowed(r)
+        al = allowed(r)
+        if "capability" in al:
+            # CA comes with DF11 / DF17 (and the 1,7 report); the register adverts only with a Comm-B 1,7 report
+            al = al | {"capability.0"} | ({"capability.1"} if r.df in (20, 21) else set())
+        extra = ch - al
         ok = not extra
         rep.oblige(ok, ("matrix", r.ctx["label"]))
         if n1 in (3, 90):
